@@ -325,7 +325,8 @@ var scratchDir string
 // scratch returns a per-process scratch directory next to the test binary (never /tmp).
 func scratch() string {
 	if scratchDir == "" {
-		d, err := os.MkdirTemp(filepath.Dir(os.Args[0]), "scratch-")
+		base, _ := filepath.Abs(filepath.Dir(os.Args[0]))
+		d, err := os.MkdirTemp(base, "scratch-")
 		if err != nil {
 			panic(err)
 		}
@@ -492,3 +493,62 @@ func (b *Browser) Callback(cbURL string) *world.Resp {
 }
 
 func runtimeStack(buf []byte) int { return runtimeStackImpl(buf) }
+
+// ---------------------------------------------------------------------------------------------
+// credentials and small fixtures shared by several checks
+
+func shaEntry(pw string) string {
+	s := sha1Sum([]byte(pw))
+	return "{SHA}" + b64Std(s)
+}
+
+// writeHtpasswd writes an htpasswd file with {SHA} entries into the scratch directory.
+func writeHtpasswd(users map[string]string) string {
+	var names []string
+	for u := range users {
+		names = append(names, u)
+	}
+	sort.Strings(names)
+	var b strings.Builder
+	for _, u := range names {
+		fmt.Fprintf(&b, "%s:%s\n", u, shaEntry(users[u]))
+	}
+	return tempFile(scratch(), "htpasswd-*", b.String())
+}
+
+func writeEmails(emails ...string) string {
+	return tempFile(scratch(), "emails-*", strings.Join(emails, "\n")+"\n")
+}
+
+func basicAuth(user, pw string) string {
+	return "Basic " + b64Std([]byte(user+":"+pw))
+}
+
+// substitution classes for single-position mutations (C02, C19): another base64 character,
+// '=', '|', '.', a digit, '-', '_', '%'
+var mutClasses = []string{"b64", "=", "|", ".", "digit", "-", "_", "%"}
+
+func substituteAt(v string, pos int, class string) (string, bool) {
+	if pos < 0 || pos >= len(v) {
+		return v, false
+	}
+	var r byte
+	switch class {
+	case "b64":
+		r = 'A'
+		if v[pos] == 'A' {
+			r = 'B'
+		}
+	case "digit":
+		r = '7'
+		if v[pos] == '7' {
+			r = '3'
+		}
+	default:
+		r = class[0]
+	}
+	if v[pos] == r {
+		return v, false
+	}
+	return v[:pos] + string(r) + v[pos+1:], true
+}
